@@ -469,6 +469,9 @@ fn gen_specs(seed: u64, n_extra: usize, san: bool) -> (Vec<Spec>, usize) {
 			let mut sp = mk(kind, rule, &mut p);
 			if kind == Kind::ReorgTrigger {
 				sp.trig_off = (v.iter().filter(|x| x.kind == Kind::ReorgTrigger && x.rule.name() == rule.name()).count() as i32) - 1;
+				// with a same-block pair in front the winning work would land on the pair instead of the -1 decision:
+				// the core set must produce every (rule, reorg_trigger, offset) cell at every seed
+				sp.pair = false;
 			}
 			if kind == Kind::Rewound {
 				sp.pre = v.iter().filter(|x| x.kind == Kind::Rewound && x.rule.name() == rule.name()).count() == 1;
@@ -1782,16 +1785,19 @@ fn probe_nrd_duplicate(seed: u64) -> bool {
 /// and carries the kernel again rel-1 / rel / rel+1 blocks after the newest occurrence that B still has. The reference
 /// ledger judges every block on its own ancestry; the node must agree on every one, also after a restart (the index is
 /// rebuilt at start-up) and after the chain reorganised to B and back to A.
-fn nrd_repeated(run: &Run, base: &str, n_variants: u64) {
+fn nrd_repeated(run: &Run, base: &str, n_variants: u64, shard: u64, nshards: u64) {
 	use vcommon::forktree::{GenBlock, Hist};
 	use vcommon::scenarios::mk_block_txs;
 	vcommon::world::init_thread(true);
 	for v in 0..n_variants {
+		if v % nshards != shard {
+			continue;
+		}
 		let seed = run.seed.wrapping_mul(0x9E37_79B9_7F4A_7C15) ^ (0x4E52_4452 + v);
 		let rel = 1 + v % 3;
 		let k = 4 + (v / 3) % 3;
 		let off: i64 = [-1i64, 0, 1][((v / 9) % 3) as usize];
-		let restart = (v / 27) % 2 == 1;
+		let restart = v % 2 == 1;
 		let mut p = Prng::new(seed);
 		let kept = 1 + p.below(k - 2); // occurrences B keeps: 1..=k-2, so at least two are rewound
 		if rel as i64 + off - 1 < 0 {
@@ -2012,6 +2018,8 @@ fn do_shard(run: &Run, specs: &[Spec], core: usize, k: usize, n: usize, deadline
 		run_scenario(run, &base, i, &specs[i]);
 		i += n;
 	}
+	// the repeated-NRD-kernel scenarios are part of the core set: their variants are spread over the workers
+	nrd_repeated(run, &base, run.tier.pick(54u64, 216u64), k as u64, n as u64);
 	run.count("shards_finished", 1);
 	drop(sc);
 }
@@ -2064,16 +2072,7 @@ fn main() {
 			.unwrap_or(4)
 			.min(16)
 			.max(1);
-		let sc = Scratch::new("c13nrd");
-		let base = sc.path.to_string_lossy().to_string();
-		std::thread::scope(|sc2| {
-			let run = &run;
-			let base = base.clone();
-			let n = run.tier.pick(54u64, 216u64);
-			sc2.spawn(move || nrd_repeated(run, &base, n));
-			run.spawn_workers(nworkers, &[], (hard_deadline + 45.0) as u64);
-		});
-		drop(sc);
+		run.spawn_workers(nworkers, &[], (hard_deadline + 45.0) as u64);
 	}
 
 	// ---- minimum observations
@@ -2157,7 +2156,7 @@ fn main() {
 			2,
 		);
 		run.require("scenarios run", run.counter("scenarios_run"), core as u64);
-		run.require("repeated NRD kernel (4-6 occurrences): scenarios agreeing with the reference rule", run.counter("nrd_repeated.scenarios_agreeing"), run.tier.pick(30, 120));
+		run.require("repeated NRD kernel (4-6 occurrences): scenarios agreeing with the reference rule", run.counter("nrd_repeated.scenarios_agreeing"), run.tier.pick(40, 160));
 		run.require("repeated NRD kernel: reorganisations rewinding two or more occurrences", run.counter("nrd_repeated.reorgs_rewinding_two_or_more_occurrences"), run.tier.pick(10, 40));
 		run.require("repeated NRD kernel: decisions the rule refuses", run.counter("nrd_repeated.decisions.reject"), run.tier.pick(10, 40));
 		run.require("repeated NRD kernel: decisions the rule accepts", run.counter("nrd_repeated.decisions.accept"), run.tier.pick(20, 80));
